@@ -407,3 +407,139 @@ theorem abs_sortBy {g : GL} (h : g.WF') (o : List Val) (hn : o.Nodup) :
     rw [members_abs h]
 
 end GL
+
+namespace GL
+open Dict
+
+/-! ### replace_group_leader -/
+
+theorem listReplaceFirst_eq_map {l : List Val} (hn : l.Nodup) (a b : Val) :
+    listReplaceFirst l a b = l.map (fun k => if k = a then b else k) := by
+  induction l with
+  | nil => rfl
+  | cons x t ih =>
+    simp only [List.nodup_cons] at hn
+    simp only [listReplaceFirst, List.map_cons]
+    by_cases hx : x = a
+    · subst hx
+      simp only [if_true, List.cons.injEq, true_and]
+      conv => lhs; rw [← List.map_id t]
+      apply List.map_congr_left
+      intro k hk
+      have : ¬ k = x := fun e => hn.1 (e ▸ hk)
+      simp [this]
+    · simp only [hx, if_false, ih hn.2]
+
+theorem abs_replaceLeader {g : GL} (h : g.WF') (l m : Val) (hlm : l ≠ m) :
+    abs (g.replaceLeader l m).1 =
+      if m ∈ RefGL.members (abs g) l ∧ l ∈ RefGL.leaders (abs g)
+      then (abs g).map (fun kv => if kv.1 = l then (m, kv.2) else kv) else abs g := by
+  have hwf := h
+  obtain ⟨h1, h2, h3, ⟨h4, h4'⟩, h5⟩ := h
+  rw [leaders_abs, members_abs hwf]
+  unfold replaceLeader
+  cases hget : g.content.get? l with
+  | none =>
+    have : l ∉ g.lst := fun hl => (get?_eq_none.1 hget) ((h3 l).1 hl)
+    simp [this]
+  | some members =>
+    have hgl : g.get l = members := by unfold get; rw [hget]; rfl
+    have hlk : l ∈ g.lst := (h3 l).2 (mem_keys.2 ⟨members, (get?_eq_some h2).1 hget⟩)
+    simp only [hgl, hlk, and_true]
+    by_cases hm : m ∉ members
+    · simp [hm]
+    have hm : m ∈ members := Classical.not_not.1 hm
+    simp only [hm, not_true_eq_false, if_false, if_true]
+    have hlm_mem : (l, members) ∈ g.content := (get?_eq_some h2).1 hget
+    have hmk : m ∉ keys g.content := by
+      intro hk
+      obtain ⟨vs, hvs⟩ := mem_keys.1 hk
+      exact h4 (m, vs) hvs (l, members) hlm_mem (fun e => hlm e.symm) m (h5 _ hvs) hm
+    have hml : m ∉ g.lst := fun hx => hmk ((h3 m).1 hx)
+    have hn1 : (keys (g.content.set m members)).Nodup := nodup_keys_set h2
+    have key : abs ⟨listReplaceFirst g.lst l m, (g.content.set m members).erase l⟩ =
+        (abs g).map (fun kv => if kv.1 = l then (m, kv.2) else kv) := by
+      unfold abs
+      simp only [listReplaceFirst_eq_map h1, List.map_map]
+      apply List.map_congr_left
+      intro k hk
+      simp only [Function.comp_def]
+      unfold get
+      simp only
+      by_cases hkl : k = l
+      · subst hkl
+        simp only [if_true, hget, Option.getD_some]
+        rw [get?_erase hn1, if_neg (fun e => hlm e.symm), get?_set, if_pos rfl]
+        rfl
+      · have hkm : k ≠ m := fun e => hml (e ▸ hk)
+        simp only [hkl, if_false]
+        rw [get?_erase hn1, if_neg hkl, get?_set, if_neg hkm]
+    split <;> exact key
+
+end GL
+
+namespace GL
+open Dict
+
+/-! ### update -/
+
+theorem keys_update_order : ∀ (d c : Dict), (keys d).Nodup →
+    keys (Dict.update c d) = keys c ++ (keys d).filter (fun k => k ∉ keys c)
+  | [], c, _ => by simp [Dict.update]
+  | (k, v) :: t, c, hn => by
+    simp only [keys_cons, List.nodup_cons] at hn
+    have ih := keys_update_order t (set c k v) hn.2
+    unfold Dict.update at ih ⊢
+    simp only [List.foldl_cons, ih, keys_set, keys_cons]
+    by_cases hk : k ∈ keys c
+    · simp [hk]
+    · simp only [hk, if_false, List.filter_cons, not_false_eq_true, decide_true, if_true, List.append_assoc,
+        List.singleton_append]
+      congr 2
+      apply List.filter_congr
+      intro x hx
+      have : x ≠ k := fun e => hn.1 (e ▸ hx)
+      simp [this]
+
+theorem get?_update : ∀ (d c : Dict) (x : Val), (keys d).Nodup →
+    get? (Dict.update c d) x = match get? d x with
+      | some v => some v
+      | none => get? c x
+  | [], c, x, _ => by simp [Dict.update, get?]
+  | (k, v) :: t, c, x, hn => by
+    simp only [keys_cons, List.nodup_cons] at hn
+    have ih := get?_update t (set c k v) x hn.2
+    unfold Dict.update at ih ⊢
+    simp only [List.foldl_cons, ih, get?]
+    by_cases hk : k = x
+    · subst hk
+      have : get? t k = none := get?_eq_none.2 hn.1
+      simp [this, get?_set]
+    · have hk' : ¬ x = k := fun e => hk e.symm
+      simp only [hk, if_false, get?_set, hk']
+
+theorem abs_update {g : GL} (h : g.WF') (d : Dict) (hv : ValidUpdate g d) :
+    abs (g.update d) = Dict.update (abs g) d := by
+  have hwf' := update_WF' h d hv
+  obtain ⟨hdn, _, _, _⟩ := hv
+  apply abs_eq_of hwf'.1
+  · rw [keys_update_order d (abs g) hdn, keys_abs]; rfl
+  · intro x hx
+    rw [get?_update d (abs g) x hdn]
+    unfold get update
+    simp only
+    rw [get?_update d g.content x hdn]
+    cases hd : get? d x with
+    | some v => rfl
+    | none =>
+      simp only
+      have hxl : x ∈ g.lst := by
+        unfold update at hx
+        simp only [List.mem_append, List.mem_filter] at hx
+        rcases hx with hx | ⟨hx, _⟩
+        · exact hx
+        · exact absurd hx (get?_eq_none.1 hd)
+      rw [get?_abs, if_pos hxl]
+      rfl
+
+end GL
